@@ -81,6 +81,8 @@ ASSUMPTIONS = [
     'cone form: r1, r2 >= 0 (MCNP admissibility; the sheet is then the one '
     'containing both points, apex-coincident points included)',
     'the 5-entry TX/TY/TZ form is not an MCNP card; it is read as B = C',
+    'X/Y/Z with three pairs raise NotImplementedError (declared limitation; '
+    'the Spec has one or two pairs)',
 ]
 
 HEADER = ('From Coq Require Import List NArith ZArith Bool PrimFloat.\n'
@@ -598,10 +600,12 @@ def probe_points(rng, mn, prm, n_random, n_cross):
     return pts
 
 
-def sweep_card(rng, mn, prm, n_random=40, n_cross=8):
+def sweep_card(rng, mn, prm, n_random=40, n_cross=8, ref=None):
     '''Property-level check of one card on the implementation. Returns
     (status, detail): status in "ok", "rejected" (conversion failed),
-    "wrong" (some point on the wrong side), "oracle-error".'''
+    "wrong" (some point on the wrong side), "oracle-error".  ref = (mnemonic,
+    params) replaces the card in the REFERENCE deck only (used to recognise
+    the exact shape of a known finding).'''
     dk = probe_deck(mn, prm)
     text = deckmod.render(dk)
     conv = impl.convert(text)
@@ -616,8 +620,9 @@ def sweep_card(rng, mn, prm, n_random=40, n_cross=8):
         return 'wrong', {'deck': text, 'why': f'output errors {t4.errors[:3]}'}
     # the reference uses the converter's reading only for the 5-entry torus
     try:
-        ref_deck = probe_deck(*ref_params(mn, prm))
-        pts = probe_points(rng, mn, prm, n_random, n_cross)
+        rmn, rprm = ref if ref is not None else (mn, prm)
+        ref_deck = probe_deck(*ref_params(rmn, rprm))
+        pts = probe_points(rng, rmn, rprm, n_random, n_cross)
         checked, failures = geomcheck.compare(ref_deck, t4, pts, eps=1e-7)
     except (ValueError, ZeroDivisionError) as exc:
         return 'oracle-error', {'deck': text, 'why': str(exc)}
@@ -632,7 +637,14 @@ def sweep_card(rng, mn, prm, n_random=40, n_cross=8):
 def finding_class(mn, prm, status, detail):
     '''Name of the open finding that this failing card belongs to, or None.'''
     if mn == 'sq' and status == 'wrong' and len(prm) == 10 and prm[6] > 0.0:
-        return 'sq_positive_g_flipped'
+        # exactly this defect: the card is converted as the SQ with A..G
+        # negated (same locus, senses exchanged); anything else stays a
+        # VIOLATION
+        negated = [-v for v in prm[0:7]] + list(prm[7:10])
+        again, _ = sweep_card(random.Random(0), mn, prm, 40, 8,
+                              ref=('sq', negated))
+        if again == 'ok':
+            return 'sq_positive_g_flipped'
     return None
 
 
